@@ -33,6 +33,7 @@ import Fbr.Lemmas.PtRun
 import Fbr.Lemmas.PtFresh
 import Fbr.Lemmas.PtSession
 import Fbr.Lemmas.PtUniq
+import Fbr.Thm.C09
 
 namespace Fbr.Thm.C08
 open Fbr.PtRefs
@@ -265,5 +266,30 @@ example :
     ∧ (mget (run cexEnv St.fresh hiHist).1.data (packIno 1 5)).map (·.refs) = some 2
     ∧ (Spec.init.run hiHist (run cexEnv St.fresh hiHist).2).held (packIno 1 5) = 2 := by
   decide
+
+/-! ### Concurrent histories
+
+The theorems above are about sequential histories.  "Any history of requests" also covers
+requests served concurrently; for those the count statement is carried by the small-step model of
+`do_lookup` / `forget_one` (Fbr.Conc, hook H1 ties it to the code): under EVERY schedule of any
+number of threads the stored count of a file is completed lookups minus amounts forgotten, and a
+number handed out stays resolvable while that difference is positive. -/
+
+theorem concurrent_refcount_exact {c : Conc.Cfg} (hinj : ∀ f g, c.pack f = c.pack g → f = g)
+    (progs : Conc.Tid → List Conc.Op) (sched : List Conc.Tid) :
+    let s := Conc.reach c progs sched
+    (∀ f, Conc.liveCount s.store f + s.decs f = s.incs f)
+    ∧ (s.lock = .free → ∀ i o, s.store.data i = some o → 0 < s.store.cells o) :=
+  let h := Fbr.Thm.C09.refcount_eq_ghost hinj progs sched
+  ⟨h.1, h.2.2⟩
+
+theorem concurrent_number_usable_while_held {c : Conc.Cfg}
+    (hinj : ∀ f g, c.pack f = c.pack g → f = g)
+    (progs : Conc.Tid → List Conc.Op) (sched : List Conc.Tid) :
+    let s := Conc.reach c progs sched
+    ∀ t f i, (f, i) ∈ (s.threads t).results → s.decs f < s.incs f →
+      ∃ o, s.store.data i = some o ∧ s.store.objHost o = f
+        ∧ s.store.cells o = s.incs f - s.decs f :=
+  Fbr.Thm.C09.returned_number_usable hinj progs sched
 
 end Fbr.Thm.C08
